@@ -682,7 +682,10 @@ func (mpt *MerklePatriciaTrie) deleteAtNode(key Key, node Node, prefix, path Pat
 		return mpt.insertNode(node, nnode)
 	case *LeafNode:
 		if bytes.Equal(path, nodeImpl.Path) {
-			return mpt.deleteAfterPathTraversal(node)
+			if err := mpt.deleteNode(node); err != nil {
+				return nil, nil, err
+			}
+			return nil, nil, nil
 		}
 
 		return nil, nil, ErrValueNotPresent // There is nothing to delete
@@ -772,6 +775,9 @@ func (mpt *MerklePatriciaTrie) insertAfterPathTraversal(value MPTSerializable, n
 func (mpt *MerklePatriciaTrie) deleteAfterPathTraversal(node Node) (Node, Key, error) {
 	switch nodeImpl := node.(type) {
 	case *FullNode:
+		if !nodeImpl.HasValue() {
+			return nil, nil, ErrValueNotPresent // the branch holds no value at this path
+		}
 		// The value of the branch needs to be updated
 		nnode := nodeImpl.Clone().(*FullNode)
 		nnode.SetValue(nil)
@@ -780,6 +786,9 @@ func (mpt *MerklePatriciaTrie) deleteAfterPathTraversal(node Node) (Node, Key, e
 		// }
 		return mpt.insertNode(node, nnode)
 	case *LeafNode:
+		if len(nodeImpl.Path) != 0 {
+			return nil, nil, ErrValueNotPresent // the leaf belongs to a longer path
+		}
 		// if nodeImpl.HasValue() {
 		// 	mpt.ChangeCollector.DeleteChange(nodeImpl.Value)
 		// }
@@ -788,7 +797,7 @@ func (mpt *MerklePatriciaTrie) deleteAfterPathTraversal(node Node) (Node, Key, e
 		}
 		return nil, nil, nil
 	case *ExtensionNode:
-		panic("this should not happen!")
+		return nil, nil, ErrValueNotPresent // the given path ends inside the trie, no value is stored there
 	default:
 		panic(fmt.Sprintf("unknown node type: %T %v", node, node))
 	}
